@@ -18,10 +18,17 @@ pub struct Frag {
     data: Vec<u8>,
     pos: usize,
     chunk: usize,
+    /// every k-th `read` call reports `ErrorKind::Interrupted` instead of delivering (0: never)
+    interrupt_every: usize,
+    calls: usize,
 }
 
 impl Read for Frag {
     fn read(&mut self, buf: &mut [u8]) -> std::io::Result<usize> {
+        self.calls += 1;
+        if self.interrupt_every >= 2 && self.calls % self.interrupt_every == 0 && self.pos < self.data.len() {
+            return Err(std::io::Error::new(std::io::ErrorKind::Interrupted, "interrupted (injected)"));
+        }
         let n = buf.len().min(self.chunk).min(self.data.len() - self.pos);
         buf[..n].copy_from_slice(&self.data[self.pos..self.pos + n]);
         self.pos += n;
@@ -37,12 +44,14 @@ pub struct Instance {
     reader: Option<H263Reader<Frag>>,
     /// bytes per `read` call of the sources this instance builds (usize::MAX = contiguous)
     pub chunk: usize,
+    /// see `Frag::interrupt_every`
+    pub interrupt_every: usize,
     pub transcript: Vec<String>,
 }
 
 impl Instance {
     pub fn new(opts: u8, steps: &[Step]) -> Instance {
-        Instance { st: H263State::new(options_from_bits(opts)), steps: steps.to_vec(), step: 0, call: 0, reader: None, chunk: usize::MAX, transcript: Vec::new() }
+        Instance { st: H263State::new(options_from_bits(opts)), steps: steps.to_vec(), step: 0, call: 0, reader: None, chunk: usize::MAX, interrupt_every: 0, transcript: Vec::new() }
     }
 
     pub fn done(&self) -> bool {
@@ -70,7 +79,7 @@ impl Instance {
             Step::Stream(b, c) => (b.clone(), *c),
         };
         if self.reader.is_none() {
-            self.reader = Some(H263Reader::from_source(Frag { data: bytes, pos: 0, chunk: self.chunk.max(1) }));
+            self.reader = Some(H263Reader::from_source(Frag { data: bytes, pos: 0, chunk: self.chunk.max(1), interrupt_every: self.interrupt_every, calls: 0 }));
             self.call = 0;
         }
         let mut reader = self.reader.take().unwrap();
@@ -126,8 +135,30 @@ fn transcript_digest(t: &[String]) -> u64 {
 fn group_case(g: &mut Gen, cfg: &PicCfg, collect: Option<&std::sync::Mutex<Vec<(Vec<(u8, Vec<Step>)>, Vec<u64>)>>>) -> Verdict {
     let k = g.range(2, 4) as usize;
     let mut hists = Vec::new();
-    for _ in 0..k {
+    let mut first_tape: Vec<u32> = Vec::new();
+    let mut twins = 0;
+    for j in 0..k {
+        if j > 0 && !first_tape.is_empty() && g.chance(1, 3) {
+            // a near-twin of the first history: the same generator choices except one to four of
+            // them - typically the same options, sizes, picture types and temporal references with
+            // different content somewhere. Instances that share anything keyed on such fields
+            // would show it here.
+            let mut t = first_tape.clone();
+            for _ in 0..g.range(1, 4) {
+                let pos = g.below(t.len() as u32) as usize;
+                t[pos] = g.word();
+            }
+            let mut g2 = Gen::new(&t);
+            let (opts, steps, _) = gen_history(&mut g2, cfg);
+            hists.push((opts, steps));
+            twins += 1;
+            continue;
+        }
+        let p0 = g.consumed();
         let (opts, steps, _) = gen_history(g, cfg);
+        if j == 0 {
+            first_tape = g.tape_slice(p0, g.consumed());
+        }
         hists.push((opts, steps));
     }
     g.describe(|| json!({"histories": hists.iter().map(|(o, s)| json!({"options": o, "steps": s.len(), "bytes": s.iter().map(|x| match x { Step::Decode(b) => b.len(), Step::Stream(b, _) => b.len(), Step::Cleanup => 0 }).sum::<usize>()})).collect::<Vec<_>>()}));
@@ -144,15 +175,19 @@ fn group_case(g: &mut Gen, cfg: &PicCfg, collect: Option<&std::sync::Mutex<Vec<(
     // (2b) the same bytes through a source that fragments its reads (sockets, pipes, chained
     // buffers return short counts): the result is a function of the bytes, not of their delivery
     let chunk = g.range(1, 9) as usize;
+    // ... and, every other time, reports ErrorKind::Interrupted on every k-th call (which a reader
+    // of a `Read` retries at once)
+    let interrupt_every = if g.bool() { g.range(2, 6) as usize } else { 0 };
     for (i, (o, s)) in hists.iter().enumerate() {
         let mut inst = Instance::new(*o, s);
         inst.chunk = chunk;
+        inst.interrupt_every = interrupt_every;
         let t = inst.run_all();
         if t != alone[i] {
             let at = t.iter().zip(alone[i].iter()).position(|(a, b)| a != b);
             return Verdict::fail(format!(
-                "history {} gives a different transcript when its bytes arrive in reads of at most {} bytes (first difference at call {:?}: {:?} vs {:?})",
-                i, chunk, at, at.map(|p| t[p].clone()), at.map(|p| alone[i][p].clone())
+                "history {} gives a different transcript when its bytes arrive in reads of at most {} bytes (every {}-th read call interrupted; 0 = none) (first difference at call {:?}: {:?} vs {:?})",
+                i, chunk, interrupt_every, at, at.map(|p| t[p].clone()), at.map(|p| alone[i][p].clone())
             ));
         }
     }
@@ -228,6 +263,9 @@ fn group_case(g: &mut Gen, cfg: &PicCfg, collect: Option<&std::sync::Mutex<Vec<(
     let mut labels: Labels = vec![["2 histories", "3 histories", "4 histories"][k - 2]];
     if threaded {
         labels.push("also run on concurrent threads");
+    }
+    if twins > 0 {
+        labels.push("group contains near-twin histories (same choices except 1-4)");
     }
     if alone.iter().any(|t| t.iter().any(|s| s.starts_with("PANIC"))) {
         labels.push("some call panicked (identically every time; judged by C01)");
@@ -381,6 +419,358 @@ fn long_interleaved_suite(n: usize) -> SuiteReport {
     })
 }
 
+/// Small histories that between them use every quantizer 1..31, both modes, intra and predicted
+/// pictures, short and escape-coded coefficients and non-zero vectors: whatever the code under
+/// test builds lazily at first use is first used by one of them.
+fn first_use_histories() -> Vec<(u8, Vec<Step>)> {
+    use crate::syntax::*;
+    let mut out = Vec::new();
+    for q in 1..=31u8 {
+        let sorenson = q % 3 != 0;
+        let version = q % 2;
+        let size = if sorenson { Size::Custom8(32, 16) } else { Size::Sqcif };
+        let mk = |t: PicType, tr: u8| -> Vec<u8> {
+            let mut hdr = if sorenson { Header::sorenson(version, t, size, q) } else { Header::standard(t, size, q) };
+            hdr.tr = tr;
+            let n = hdr.mb_dims().map(|(a, b)| a * b).unwrap_or(1);
+            let mut mbs = Vec::new();
+            for k in 0..n {
+                let mut mb = if t == PicType::I || k % 3 == 0 { Mb::new(MbKind::Intra) } else { Mb::new(MbKind::Inter) };
+                if mb.kind == MbKind::Inter {
+                    mb.mvd[0] = ((k % 7) as i8 - 3, (q % 5) as i8 - 2);
+                }
+                for b in 0..6 {
+                    mb.blocks[b].dc = 40 + ((k * 7 + b * 13 + q as usize) % 170) as u8;
+                    if mb.blocks[b].dc == 128 {
+                        mb.blocks[b].dc = 129;
+                    }
+                    let lvl = 1 + ((k + b + q as usize) % 9) as i16;
+                    mb.blocks[b].events = vec![
+                        Event { run: (b % 4) as u8, level: if k % 2 == 0 { lvl } else { -lvl }, force_escape: false, wide: false },
+                        Event { run: 1, level: 40 + q as i16, force_escape: true, wide: sorenson && version == 1 && b % 2 == 0 },
+                    ];
+                }
+                mbs.push(mb);
+            }
+            encode_pic(&Pic { hdr, mbs, trailing_zero_bits: 0 })
+        };
+        out.push((if sorenson { 1u8 } else { 0u8 }, vec![Step::Decode(mk(PicType::I, q)), Step::Decode(mk(PicType::P, q.wrapping_add(1)))]));
+    }
+    out
+}
+
+/// Child-process entry for the cold-start relation: the very first thing this process does with
+/// the code under test is to run every history of `path` on `threads` threads released together,
+/// all in the same order (so they collide on every first use); digests must equal the recorded ones.
+pub fn cold_main(path: &str, threads: usize) -> i32 {
+    let text = match std::fs::read_to_string(path) {
+        Ok(t) => t,
+        Err(_) => return 2,
+    };
+    let v: Value = match serde_json::from_str(&text) {
+        Ok(v) => v,
+        Err(_) => return 2,
+    };
+    let mut work: Vec<(usize, usize, u8, Vec<Step>, String)> = Vec::new();
+    for (gi, grp) in v.as_array().cloned().unwrap_or_default().iter().enumerate() {
+        for (hi, h) in grp["histories"].as_array().cloned().unwrap_or_default().iter().enumerate() {
+            work.push((gi, hi, h["opts"].as_u64().unwrap_or(0) as u8, decode_steps(&h["steps"]), grp["digests"][hi].as_str().unwrap_or("").to_string()));
+        }
+    }
+    let work = std::sync::Arc::new(work);
+    let go = std::sync::Arc::new(std::sync::atomic::AtomicBool::new(false));
+    let ready = std::sync::Arc::new(std::sync::atomic::AtomicUsize::new(0));
+    let mut handles = Vec::new();
+    for t in 0..threads {
+        let (work, go, ready) = (work.clone(), go.clone(), ready.clone());
+        handles.push(std::thread::spawn(move || {
+            ready.fetch_add(1, std::sync::atomic::Ordering::SeqCst);
+            while !go.load(std::sync::atomic::Ordering::Acquire) {
+                std::hint::spin_loop();
+            }
+            let mut bad = Vec::new();
+            for (gi, hi, opts, steps, want) in work.iter() {
+                let tr = Instance::new(*opts, steps).run_all();
+                let d = format!("{:016x}", transcript_digest(&tr));
+                if &d != want {
+                    bad.push((*gi, *hi, t));
+                }
+            }
+            bad
+        }));
+    }
+    while ready.load(std::sync::atomic::Ordering::SeqCst) < threads {
+        std::thread::yield_now();
+    }
+    go.store(true, std::sync::atomic::Ordering::Release);
+    let mut bad = 0;
+    for h in handles {
+        match h.join() {
+            Ok(b) => {
+                for (gi, hi, t) in b {
+                    println!("MISMATCH {} {} thread {}", gi, hi, t);
+                    bad += 1;
+                }
+            }
+            Err(_) => {
+                println!("MISMATCH 0 0 thread panicked");
+                bad += 1;
+            }
+        }
+    }
+    println!("CHECKED {}", work.len());
+    if bad > 0 {
+        1
+    } else {
+        0
+    }
+}
+
+/// (6) cold start: fresh processes whose first use of the code under test happens on many threads
+/// at once. Anything built lazily at first use (tables, caches) is built under contention here, and
+/// every thread must still produce the transcripts this (long warmed-up) process produces.
+fn cold_start_suite(ctx: &Ctx, extra: &[(Vec<(u8, Vec<Step>)>, Vec<u64>)], processes: usize) -> SuiteReport {
+    let mut rep = SuiteReport { name: "cold_start_on_many_threads".into(), ..Default::default() };
+    let mut all: Vec<(Vec<(u8, Vec<Step>)>, Vec<u64>)> = Vec::new();
+    for (o, s) in first_use_histories() {
+        let d = transcript_digest(&Instance::new(o, &s).run_all());
+        all.push((vec![(o, s)], vec![d]));
+    }
+    all.extend(extra.iter().take(40).cloned());
+    let dir = ctx.root.join("harness").join("target").join("tmp");
+    let _ = std::fs::create_dir_all(&dir);
+    let path = dir.join(format!("c17-cold-{}-{}.json", std::process::id(), ctx.seed));
+    if std::fs::write(&path, serde_json::to_string(&encode_hists(&all)).unwrap()).is_err() {
+        rep.notes.push("could not write the history file; not judged".into());
+        return rep;
+    }
+    let threads = ctx.threads.clamp(2, 16);
+    for p in 0..processes {
+        let out = std::process::Command::new(std::env::current_exe().unwrap()).arg("c17-cold").arg(&path).arg(threads.to_string()).output();
+        match out {
+            Ok(o) => {
+                let text = String::from_utf8_lossy(&o.stdout).to_string();
+                if let Some(line) = text.lines().find(|l| l.starts_with("MISMATCH")) {
+                    let parts: Vec<usize> = line.split_whitespace().skip(1).filter_map(|x| x.parse().ok()).collect();
+                    let (gi, hi) = (parts.first().copied().unwrap_or(0), parts.get(1).copied().unwrap_or(0));
+                    let n_bad = text.lines().filter(|l| l.starts_with("MISMATCH")).count();
+                    let one = vec![(vec![all[gi].0[hi].clone()], vec![all[gi].1[hi]])];
+                    rep.failure = Some(Failure {
+                        suite: "cold_start_on_many_threads".into(),
+                        msg: format!(
+                            "fresh process #{}: {} threads started together, each decoding the same {} histories as its first work - {} transcripts differ from the ones computed in the warmed-up process (first: history {} of group {}; {})",
+                            p, threads, all.len(), n_bad, hi, gi, line
+                        ),
+                        signature: None,
+                        case: json!({"kind": "params", "cold_group": encode_hists(&one), "threads": threads}),
+                        description: None,
+                    });
+                    break;
+                } else if !text.contains("CHECKED") {
+                    rep.notes.push(format!("cold-start process did not report (exit {:?}); not judged", o.status.code()));
+                } else {
+                    rep.evaluations += (all.len() * threads) as u64;
+                    rep.distinct_nontrivial += all.len() as u64;
+                }
+            }
+            Err(e) => rep.notes.push(format!("could not start a cold-start process: {}", e)),
+        }
+    }
+    let _ = std::fs::remove_file(&path);
+    rep.samples.push(json!({"fresh_processes": processes, "threads_each": threads, "histories": all.len(), "of_which_first_use_histories (every quantizer, both modes)": 31}));
+    rep
+}
+
+/// (7) heavy use: tens of thousands of decode attempts of pictures with the largest and oddest
+/// dimensions (header and a little data each - they fail after their buffers were set up) on many
+/// decoders and threads; afterwards a fresh decoder must decode an ordinary picture exactly as
+/// one did when the process started. Whatever the attempts left behind process-wide, no later
+/// instance may notice it.
+fn heavy_use_suite(ctx: &Ctx, attempts: usize) -> SuiteReport {
+    let threads = ctx.threads.clamp(1, 16);
+    simple_suite("fresh_instance_after_heavy_use", false, move |acc| {
+        use crate::syntax::*;
+        let probe = || -> Vec<String> {
+            let mut out = Vec::new();
+            for (o, s) in first_use_histories().into_iter().take(6) {
+                out.extend(Instance::new(o, &s).run_all());
+            }
+            let cif = super::c13::cheap_intra(Mode::Sorenson, 0, Size::Cif, 6, 5);
+            out.extend(Instance::new(1, &[Step::Decode(encode_pic(&cif))]).run_all());
+            out
+        };
+        let before = probe();
+        let sizes: [(u16, u16); 6] = [(65535, 1), (1, 65535), (65533, 3), (3, 65533), (32767, 3), (16383, 7)];
+        let per_thread = attempts / threads;
+        let handles: Vec<_> = (0..threads)
+            .map(|t| {
+                std::thread::spawn(move || {
+                    let mut errs = 0usize;
+                    let mut st = H263State::new(options_from_bits(1));
+                    for k in 0..per_thread {
+                        let (w, h) = sizes[(k + t) % sizes.len()];
+                        let mut hdr = Header::sorenson((k % 2) as u8, PicType::I, Size::Custom16(w, h), 1 + (k % 31) as u8);
+                        hdr.tr = k as u8;
+                        let mut mb = Mb::new(MbKind::Intra);
+                        for b in 0..6 {
+                            mb.blocks[b].dc = 90;
+                        }
+                        // one macroblock of thousands: the data ends, the rest would need a reference
+                        let bytes = encode_pic(&Pic { hdr, mbs: vec![mb], trailing_zero_bits: 0 });
+                        if k % 97 == 0 {
+                            st = H263State::new(options_from_bits(1));
+                        }
+                        if !decode_bytes(&mut st, &bytes).is_ok() {
+                            errs += 1;
+                        }
+                    }
+                    errs
+                })
+            })
+            .collect();
+        let mut rejected = 0;
+        for h in handles {
+            rejected += h.join().unwrap_or(0);
+        }
+        acc.count_n((per_thread * threads) as u64, 2);
+        let after = probe();
+        if after != before {
+            let at = after.iter().zip(before.iter()).position(|(a, b)| a != b);
+            acc.fail(
+                json!({"kind":"params","heavy_use":attempts}),
+                format!(
+                    "after {} decode attempts of 65535x1-class pictures on {} threads ({} rejected), fresh decoders no longer behave as at process start: call {:?} gives {:?}, gave {:?} before",
+                    per_thread * threads, threads, rejected, at, at.map(|p| after[p].clone()), at.map(|p| before[p].clone())
+                ),
+            );
+            return;
+        }
+        acc.sample(|| json!({"attempts": per_thread * threads, "threads": threads, "rejected": rejected, "sizes": format!("{:?}", sizes), "probe": "6 two-picture histories + one CIF picture on fresh decoders, before and after"}));
+    })
+}
+
+/// A source that hands out `first` bytes, then blocks inside `read` until released.
+struct Gate {
+    data: Vec<u8>,
+    pos: usize,
+    first: usize,
+    state: std::sync::Arc<(std::sync::Mutex<(bool, bool)>, std::sync::Condvar)>, // (blocked, released)
+}
+
+impl Read for Gate {
+    fn read(&mut self, buf: &mut [u8]) -> std::io::Result<usize> {
+        if self.pos >= self.first {
+            let (m, cv) = &*self.state;
+            let mut g = m.lock().unwrap();
+            if !g.1 {
+                g.0 = true;
+                cv.notify_all();
+                while !g.1 {
+                    g = cv.wait(g).unwrap();
+                }
+            }
+        }
+        let lim = if self.pos < self.first { self.first - self.pos } else { usize::MAX };
+        let n = buf.len().min(self.data.len() - self.pos).min(lim);
+        buf[..n].copy_from_slice(&self.data[self.pos..self.pos + n]);
+        self.pos += n;
+        Ok(n)
+    }
+}
+
+/// (8) a decoder whose source is waiting for data (a pipe, a socket) must not hold up another
+/// decoder. Instance X decodes from a source that blocks inside `read` after k bytes; while it is
+/// blocked, instance Y decodes a picture on another thread and must finish; then X is released and
+/// must finish with its own result. Y is given 30 s (it needs microseconds); only a stall that
+/// repeats in a second attempt is reported.
+fn blocked_source_suite() -> SuiteReport {
+    simple_suite("instance_with_a_waiting_source", false, |acc| {
+        use crate::syntax::*;
+        use std::sync::mpsc;
+        use std::time::Duration;
+        let x_pic = encode_pic(&super::c13::cheap_intra(Mode::Sorenson, 1, Size::Custom8(48, 32), 7, 2));
+        let y_pic = encode_pic(&super::c13::cheap_intra(Mode::Standard, 0, Size::Sqcif, 9, 4));
+        let x_want = Instance::new(1, &[Step::Decode(x_pic.clone())]).run_all();
+        let y_want = Instance::new(0, &[Step::Decode(y_pic.clone())]).run_all();
+        let attempt = |first: usize| -> Result<bool, String> {
+            let state = std::sync::Arc::new((std::sync::Mutex::new((false, false)), std::sync::Condvar::new()));
+            let src = Gate { data: x_pic.clone(), pos: 0, first, state: state.clone() };
+            let (xtx, xrx) = mpsc::channel();
+            let xh = std::thread::spawn(move || {
+                let mut st = H263State::new(options_from_bits(1));
+                let mut r = H263Reader::from_source(src);
+                let o = decode_call(&mut st, &mut r);
+                let _ = xtx.send(format!("{}|{:016x}", o.short(), last_digest(&st)));
+            });
+            // wait until X is blocked inside its source
+            {
+                let (m, cv) = &*state;
+                let mut g = m.lock().unwrap();
+                let t0 = std::time::Instant::now();
+                while !g.0 {
+                    let (g2, _) = cv.wait_timeout(g, Duration::from_millis(200)).unwrap();
+                    g = g2;
+                    if t0.elapsed() > Duration::from_secs(30) {
+                        g.1 = true;
+                        cv.notify_all();
+                        drop(g);
+                        let _ = xh.join();
+                        return Err("instance X never reached its source's waiting point".into());
+                    }
+                }
+            }
+            let (ytx, yrx) = mpsc::channel();
+            let yp = y_pic.clone();
+            let yh = std::thread::spawn(move || {
+                let t = Instance::new(0, &[Step::Decode(yp)]).run_all();
+                let _ = ytx.send(t);
+            });
+            let y_got = yrx.recv_timeout(Duration::from_secs(30));
+            // release X whatever happened
+            {
+                let (m, cv) = &*state;
+                let mut g = m.lock().unwrap();
+                g.1 = true;
+                cv.notify_all();
+            }
+            let x_got = xrx.recv_timeout(Duration::from_secs(60));
+            let _ = xh.join();
+            let _ = yh.join();
+            match y_got {
+                Err(_) => return Ok(false), // Y stalled while X was waiting
+                Ok(t) => {
+                    if t != y_want {
+                        return Err(format!("instance Y decoded {:?} while instance X was waiting for its source; alone it gives {:?}", t, y_want));
+                    }
+                }
+            }
+            match x_got {
+                Ok(s) => {
+                    if vec![s.clone()] != x_want {
+                        return Err(format!("instance X, released after waiting {} bytes into its picture, gave {:?}; without the wait {:?}", first, s, x_want));
+                    }
+                }
+                Err(_) => return Err("instance X did not finish within 60 s of being released".into()),
+            }
+            Ok(true)
+        };
+        let points: Vec<usize> = (0..x_pic.len()).step_by((x_pic.len() / 12).max(1)).collect();
+        for first in points.iter() {
+            acc.count(true);
+            let r = match attempt(*first) {
+                Ok(false) => attempt(*first).and_then(|again| if again { Ok(()) } else { Err(format!("while instance X was waiting inside its source's read() {} bytes into a picture, instance Y (another decoder, another thread, its own in-memory source) did not finish decoding one sub-QCIF picture within 30 s - twice in a row", first)) }),
+                Ok(true) => Ok(()),
+                Err(m) => Err(m),
+            };
+            if let Err(m) = r {
+                acc.fail(json!({"kind":"params","waiting_source":first}), m);
+                return;
+            }
+        }
+        acc.sample(|| json!({"waiting_points_bytes_into_picture": points, "picture_bytes": x_pic.len()}));
+    })
+}
+
 pub fn cfg_for(tier: Tier) -> PicCfg {
     match tier {
         Tier::Quick => PicCfg { max_dim: 64, max_fixed_mbs: 396, budget: 400, extreme_aspect: false, ..PicCfg::quick() },
@@ -458,11 +848,16 @@ pub fn run(ctx: &Ctx) -> i32 {
         let _ = std::fs::remove_file(&path);
     }
     reports.push(rep);
+    if reports.iter().all(|r| r.failure.is_none()) {
+        reports.push(cold_start_suite(ctx, &all, ctx.tier.pick(6usize, 40usize)));
+        reports.push(heavy_use_suite(ctx, ctx.tier.pick(48_000usize, 200_000usize)));
+        reports.push(blocked_source_suite());
+    }
     finish(
         ctx,
         reports,
         Summary {
-            rule: "Groups of 2..4 histories from the C01 generator (valid, hostile and corrupted data; own readers, streams, clean-ups; all four option sets). The transcript of a history (per call: result and digest of get_last_picture()) must be identical when it is run (1) alone, (2) again in the same process after other work and through a source that delivers the same bytes in reads of 1..9 bytes, (3) with its calls interleaved with calls on the other instances in a tape-generated order on one thread, (4) for every fourth group, on 3 replicas x k real threads released together by a barrier, (5) in a second process (up to 400 groups per run are recomputed by a child process). Non-trivial = a history with >= 2 accepted and >= 1 rejected call; distinct by transcript digests.",
+            rule: "Groups of 2..4 histories from the C01 generator (valid, hostile and corrupted data; own readers, streams, clean-ups; all four option sets). The transcript of a history (per call: result and digest of get_last_picture()) must be identical when it is run (1) alone, (2) again in the same process after other work and through a source that delivers the same bytes in reads of 1..9 bytes, (3) with its calls interleaved with calls on the other instances in a tape-generated order on one thread, (4) for every fourth group, on 3 replicas x k real threads released together by a barrier, (5) in a second process (up to 400 groups per run are recomputed by a child process), (6) in fresh processes whose first work is to decode on up to 16 threads released together (31 histories using every quantizer in both modes, plus 40 generated groups): cold_start_on_many_threads; (7) fresh decoders behave as at process start after tens of thousands of decode attempts of 65535x1-class pictures on many threads: fresh_instance_after_heavy_use; (8) a decoder blocked inside its source's read() does not hold up another decoder on another thread: instance_with_a_waiting_source. Non-trivial = a history with >= 2 accepted and >= 1 rejected call; distinct by transcript digests.",
             assumptions: vec![
                 "the harness owns call-level interleaving; instruction-level interleaving inside a call is left to the OS scheduler (safe Rust rules out data races; the scan for unsafe / static mut / thread_local is reported under no_unsafe_no_static_mut)".into(),
             ],
@@ -482,6 +877,35 @@ pub fn replay(suite: &str, case: &Value) -> Option<Verdict> {
             Some(f) => Verdict::fail(f.msg),
             None => Verdict::pass(true, 0),
         }),
+        "fresh_instance_after_heavy_use" => {
+            let ctx = Ctx::new("C17", Tier::Quick, 1);
+            Some(match heavy_use_suite(&ctx, case["heavy_use"].as_u64()? as usize).failure {
+                Some(f) => Verdict::fail(f.msg),
+                None => Verdict::pass(true, 0),
+            })
+        }
+        "instance_with_a_waiting_source" => Some(match blocked_source_suite().failure {
+            Some(f) => Verdict::fail(f.msg),
+            None => Verdict::pass(true, 0),
+        }),
+        "cold_start_on_many_threads" => {
+            // the recorded group, in up to 20 fresh processes
+            let threads = case["threads"].as_u64().unwrap_or(16) as usize;
+            let dir = std::env::temp_dir();
+            let path = dir.join(format!("c17-cold-replay-{}.json", std::process::id()));
+            std::fs::write(&path, serde_json::to_string(&case["cold_group"]).ok()?).ok()?;
+            let mut verdict = Verdict::pass(true, 0);
+            for _ in 0..20 {
+                let out = std::process::Command::new(std::env::current_exe().ok()?).arg("c17-cold").arg(&path).arg(threads.to_string()).output().ok()?;
+                let text = String::from_utf8_lossy(&out.stdout).to_string();
+                if let Some(l) = text.lines().find(|l| l.starts_with("MISMATCH")) {
+                    verdict = Verdict::fail(format!("a fresh process decoding the recorded history on {} threads at once gives another transcript than recorded ({})", threads, l));
+                    break;
+                }
+            }
+            let _ = std::fs::remove_file(&path);
+            Some(verdict)
+        }
         "second_process" => {
             // recompute here (this IS another process than the one that recorded the digest)
             let grp = &case["group"][0];
